@@ -124,6 +124,11 @@ def h_lv(ctx, n):
     raw = lv.pack()
     ctx.holds("pack == length,value", raw == ctx.bytes_of([n] + items_of(val)))
     ctx.holds("packet_len == n+1", sym_and(lv.packet_len == n + 1, len(raw) == n + 1))
+    pack_hands_out_fresh_buffers(ctx, lv.pack, ctx.bytes_of([n] + items_of(val)))
+    # ... nor into what another LV of the same length packs to
+    e, lv2 = call(CfdpLv, bytes(items_of(val)) if n > 8 else ctx.bytes_of(items_of(val)))
+    ctx.holds("another LV with the same value packs to length,value after a caller changed an earlier result",
+              e is None and lv2.pack() == ctx.bytes_of([n] + items_of(val)), exc_name(e))
     for k in (0, 2):
         tail = ctx.octets("tail%d" % k, k)
         e, u = call(CfdpLv.unpack, raw + tail)
@@ -173,8 +178,10 @@ def h_lv_raw(ctx, L):
 
 
 # ---------------------------------------------------------------- concrete TLVs
-def via_all_routes(ctx, cls, to_name, raw, check):
+def via_all_routes(ctx, cls, to_name, raw, check, obj=None):
     """decode raw through unpack (with and without trailing octets), from_tlv and the holder; check(obj) -> condition"""
+    if obj is not None:
+        pack_hands_out_fresh_buffers(ctx, obj.pack, ctx.bytes_of(list(items_of(raw))))
     for k in (0, 2):
         e, u = call(cls.unpack, raw + ctx.octets("tail%d" % k, k))
         if e is not None:
@@ -215,7 +222,7 @@ def h_simple(ctx, kind, n):
     ctx.holds("tlv_type", o.tlv_type == typ)
     decoded_object_owns_its_data(ctx, cls.unpack, [typ, n] + items_of(val), lambda x: sym_and(x.value == val, x.pack() == raw),
                                  flavours=("bytearray", "memoryview"))
-    via_all_routes(ctx, cls, to_name, raw, lambda u: sym_and(u.value == val, u.tlv_type == typ))
+    via_all_routes(ctx, cls, to_name, raw, lambda u: sym_and(u.value == val, u.tlv_type == typ), obj=o)
     if kind != "entity" or n in (1, 2, 4, 8):
         ctx.holds("== itself decoded", cls.unpack(raw) == o)
 
@@ -229,7 +236,7 @@ def h_fault(ctx):
     ctx.holds("pack == reference layout", raw == ctx.bytes_of([4, 1, (cond << 4) | hc]))
     ctx.holds("packet_len == len(pack)", sym_and(o.packet_len == 3, len(raw) == 3))
     via_all_routes(ctx, FaultHandlerOverrideTlv, "to_fault_handler_override", raw,
-                   lambda u: sym_and(u.condition_code == cond, u.handler_code == hc, u.tlv_type == 4))
+                   lambda u: sym_and(u.condition_code == cond, u.handler_code == hc, u.tlv_type == 4), obj=o)
 
 
 def ref_fs(action, status, n1, n2, msg=None):
@@ -252,7 +259,7 @@ def h_fsreq(ctx, s1, s2):
     def check(u):
         return sym_and(u.action_code == action, u.first_file_name == n1, (u.second_file_name == n2) if has2 else True,
                        u.tlv_type == 0)
-    via_all_routes(ctx, FileStoreRequestTlv, "to_fs_request", raw, check)
+    via_all_routes(ctx, FileStoreRequestTlv, "to_fs_request", raw, check, obj=o)
 
 
 def h_fsresp(ctx, s1, s2, m):
@@ -272,7 +279,7 @@ def h_fsresp(ctx, s1, s2, m):
     def check(u):
         return sym_and(u.action_code == action, u.status_code == full, u.first_file_name == n1,
                        (u.second_file_name == n2) if has2 else True, u.filestore_msg.value == msg, u.tlv_type == 1)
-    via_all_routes(ctx, FileStoreResponseTlv, "to_fs_response", raw, check)
+    via_all_routes(ctx, FileStoreResponseTlv, "to_fs_response", raw, check, obj=o)
 
 
 # ---------------------------------------------------------------- type safety
